@@ -4717,8 +4717,13 @@ class ParseElementEnhance(ParserElement):
         except ParseSyntaxException:
             raise
         except ParseBaseException as pbe:
-            pbe.pstr = pbe.pstr or instring
-            pbe.loc = pbe.loc or loc
+            if not pbe.pstr or not pbe.loc:
+                pbe.pstr = pbe.pstr or instring
+                pbe.loc = pbe.loc or loc
+                # line, lineno, col... may have been read (and cached) while
+                # the exception had no location yet, by a debug action for instance
+                for attr in ("line", "lineno", "col", "column", "found"):
+                    pbe.__dict__.pop(attr, None)
             pbe.parser_element = pbe.parser_element or self
             if not isinstance(self, Forward) and self.customName is not None:
                 if self.errmsg:
